@@ -3,6 +3,11 @@
 import json, subprocess
 
 CLAIMED = {
+ "C05": dict(
+   text="Proof of the host-loop obligations of etcd/raft's documented Node contract, on every path of RaftGroup.run and for every Ready: messages are sent only after Save returned nil, except by a node that was leader at the first test (the documented optimisation), exactly once per Ready; Advance comes last (after Save, the one Send and the whole committed-entries loop); every configuration change that decodes reaches ApplyConfChange exactly once; StartNode (bootstrap) is reached only behind a positive freshness test of the very storage it is given, otherwise RestartNode.",
+   note="Assumed, not proved: etcd/raft's own safety under these obligations; message faults, multi-replica histories and convergence are outside a sequential contract proof. The WAL observers used by the freshness test (InitialState/Snapshot/LastIndex) are assumed contracts here (C06 is about the store).",
+   tech="contract-based typestate verification (ghost state + call hooks) against an assumed dependency contract, SMT",
+   ref="DESIGN.md §4 C05"),
  "C09": dict(
    text="Proof under a stated channel protocol (unbounded in the number of nodes/partitions, every schedule covered by the most general receive): each worker body sends exactly one message on exactly one channel on every path (errors non-nil); the collector spawns one worker per map entry / partition id, consumes exactly as many real messages as it spawned or returns an error, never returns (nil, nil), and its result is ascending by score and at most k long. Neither the functions nor their function literals close the channels (noclose obligation), which is what makes every receive a real message.",
    note="Assumed: goroutine bodies are not executed by the generator - the protocol (who sends how many messages) is declared by hooks and each party is verified against it; sort.Sort sorts w.r.t. Less (assumed contract); 'exactly the k best of the union' is carried only as sorted-prefix-of-what-was-received (multiset equality of the merge is not machine-checked); getSearchQueryNodes' 'every partition on exactly one node list' is assumed; NaN scores excluded by the float-order assumption.",
@@ -18,6 +23,11 @@ CLAIMED = {
    note="Assumed: Metadata.bytesSize is an uninterpreted function of the map (determinism, not the sum); float link estimate in BytesSize not covered; 'bytesSize equals the sum over live items' follows from the per-operation deltas by the induction over histories (meta-argument); graph maintenance is covered only through its frame (whole-family modifies for links and queue internals); safety side-conditions of the graph code are owned by C01/C12; sequential semantics.",
    tech="contract-based deductive verification (functional contracts against a map spec, frames, loop invariants over map iteration), SMT",
    ref="DESIGN.md §4 C02"),
+ "C03": dict(
+   text="Proof of the ordering obligations only (every control-flow path of the ready loop, every Ready content): wal.Save(HardState, Entries, Snapshot) has returned nil before any committed entry, snapshot or configuration change is handed to the state machine; the applied-index variable equals the index of the last entry handed over, and trySnapshot is called with exactly that index, on the same goroutine, and labels the snapshot with the index it was given and the bytes snapshotFn returned; Start re-installs the stored snapshot before the loop is launched and fails if that fails; success of proposeAndWaitForCommit comes only from the apply path (C11).",
+   note="NOT decided by this family: crash atomicity itself. Assumed: Badger makes a flushed write batch durable and atomic (only while the batch fits one transaction); etcd/raft re-delivers committed-but-unapplied entries after RestartNode; a crash is a prefix of completed Flush calls. The implication 'ordering + those assumptions => acknowledged writes survive' is prose in DESIGN.md, not a machine proof.",
+   tech="contract-based typestate verification (ghost state + call hooks) over the real ready loop, SMT",
+   ref="DESIGN.md §4 C03"),
  "C04": dict(
    text="Proof (unbounded) of the apply half: partition.process dispatches every well-formed entry to an apply function whose postcondition determines the new contents and the outcome as a function of (old contents, entry) only - map iteration order, levels, links and entry point cannot influence them by the frame contracts; apply returns nil and notifies exactly once. Batch forms: per-id outcome facts and untouched ids outside the batch.",
    note="Assumed: well-formedness of the decoded entry (16-byte ids, level >= 0, own metadata map) - establishing it is C12's obligation on proposers; proto.Unmarshal and uuid.FromBytes contracts; the snapshot half (restore(snapshot(s)) = s) is C08's subject and is not claimed here; the step from per-entry determinism to replica equality is the standard induction over the log (not machine-checked).",
@@ -28,6 +38,11 @@ CLAIMED = {
    note="Not explored: interleavings - delivery is proved via the capacity precondition rather than by enumerating schedules; uniqueness of notification ids (uuid.NewV4) assumed; partition.insert/update/remove and the raft proposal path are assumed contracts here; batch error maps at dataset level (partitionsBatchRequest fan-in) not yet under contract.",
    tech="contract-based deductive verification with ghost counters for proposals/RPCs/notifications, SMT",
    ref="DESIGN.md §4 C11"),
+ "C14": dict(
+   text="Proof of the state-machine clauses (unbounded): createDataset/deleteDataset against the map view (exact outcomes, other ids untouched, undecodable entries change nothing); process applies a decodable entry of a known type with exactly one apply function; processSnapshot into ANY manager state leaves exactly the snapshot's ids (kept entries are the old objects); the shared zero group delivers an entry to the consumer it names exactly once; wiring typestate in Server.setup: RaftGroup.Start (which restores the snapshot and launches replay) only after every consumer has registered; NewSharedGroup/NewRaftGroup leave the group with the fields Start needs.",
+   note="Not decided: 'every node lists it' as a statement about N processes (etcd/raft + C05 host obligations); updatePartitionNodes, newDataset, Allocator.watch/unwatch are assumed contracts; snapshot() is only as good as proto.Marshal (assumed); field-by-field equality of restored metadata is inherited from newDataset's assumed contract.",
+   tech="contract-based deductive verification (map view, loop invariants incl. delete-during-range, ghost typestate for wiring), SMT",
+   ref="DESIGN.md §4 C14"),
  "C16": dict(
    text="Proof (unbounded in N, R, P and in the shuffle): every partition gets exactly min(R,N) distinct member ids, and no placement shares storage with the shuffle buffer or another placement. rand.Shuffle is an assumed contract (calls swap(i,j), 0<=i,j<n, any number of times); the swap closure is verified in place against a caller-supplied invariant.",
    note="Assumed: rand.Shuffle contract; sequential semantics; independence is proved in the sufficient form 'results do not alias the buffer or each other'.",
